@@ -504,3 +504,96 @@ def r10a2_classification_relative(ctx):
                 r.violate(key, "`%s` is tested on the absolute path in %s at %s" % (sorted(lits), f.id, crate.span_str(c["span"])))
     r.counts["sites"] = n
     return r
+
+
+def _reaching_defs(f, L):
+    """reaching definitions of whole local L: {bb: set(def ids)} at block entry; def id = (bb, statement index | 'T')"""
+    gen = {}
+    for bi, b in enumerate(f.blocks):
+        last = None
+        for si, s in enumerate(b["s"]):
+            if s[0] == "=" and s[1] == L:
+                last = (bi, si)
+        t = b["t"]
+        if t[0] == "call" and t[1]["dest"] == L:
+            last = (bi, "T")
+        gen[bi] = last
+    IN = {b: set() for b in range(len(f.blocks))}
+    work = list(f.reachable())
+    preds = f.preds()
+    out_of = lambda b: ({gen[b]} if gen[b] is not None else IN[b])
+    changed = True
+    while changed:
+        changed = False
+        for b in work:
+            new = set()
+            for p in preds.get(b, []):
+                # a call's destination is written on the return edge only
+                tp = f.blocks[p]["t"]
+                if tp[0] == "call" and tp[1]["dest"] == L and tp[1].get("target") != b:
+                    prev = None
+                    for si, s in enumerate(f.blocks[p]["s"]):
+                        if s[0] == "=" and s[1] == L:
+                            prev = (p, si)
+                    new |= ({prev} if prev is not None else IN[p])
+                else:
+                    new |= out_of(p)
+            if new != IN[b]:
+                IN[b] = new
+                changed = True
+    return IN
+
+
+def _defs_at(f, IN, L, bb, si):
+    cur = set(IN[bb])
+    for k, s in enumerate(f.blocks[bb]["s"]):
+        if si != "T" and k >= si:
+            break
+        if s[0] == "=" and s[1] == L:
+            cur = {(bb, k)}
+    return cur
+
+
+def r10j_filter_sees_recorded_module(ctx):
+    r = Result("R10j", "a skip filter applied to the module string of an import record (`FixtureImport.module_path`) tests the "
+                       "string that is recorded: the definitions of the variable reaching the filter call are those reaching the "
+                       "record construction (a filter placed before the leading dots of a relative import are prepended tests "
+                       "another module name than the one imported)")
+    from .r1e import _root
+    crate = ctx.bin
+    n = 0
+    for f in crate.real_fns():
+        recs = []
+        for bb, si, pl, rv, sp in f.assigns():
+            if rv[0] == "agg" and rv[1][0] == "adt" and rv[1][1].endswith("::FixtureImport") and "module_path" in rv[1][3]:
+                o = rv[2][rv[1][3].index("module_path")]
+                L = _root(f, o)
+                if L is not None:
+                    recs.append((bb, si, L))
+        if not recs:
+            continue
+        for L in sorted({L for _b, _s, L in recs}):
+            IN = _reaching_defs(f, L)
+            at_rec = set()
+            for bb, si, L2 in recs:
+                if L2 == L:
+                    at_rec |= _defs_at(f, IN, L, bb, si)
+            for bb, c in f.calls():
+                if not c.get("res_local") or c["span"][4].startswith("macro:"):
+                    continue
+                g = crate.fns.get(c.get("res"))
+                if g is None or g.ret != "bool":
+                    continue
+                if not any(_root(f, a) == L for a in c["args"]):
+                    continue
+                n += 1
+                at_test = _defs_at(f, IN, L, bb, "T")
+                key = "R10j|%s|%s tests `%s`" % (f.id, c["res"].split("::")[-1], f.local_name(L) or "_%d" % L)
+                if at_test == at_rec:
+                    r.ok(sample={"filter": c["res"].split("::")[-1], "variable": f.local_name(L), "definitions": len(at_rec)})
+                else:
+                    r.violate(key, "%s at %s sees %d of the %d definitions of `%s` that reach the record: it tests another string than "
+                                   "the one stored in FixtureImport.module_path" % (c["res"].split("::")[-1], crate.span_str(c["span"]),
+                                                                                   len(at_test & at_rec), len(at_rec), f.local_name(L)))
+    r.floor("filters on recorded import module strings", n, 1)
+    return r
